@@ -68,6 +68,7 @@ struct Scene {
   bool ok = false;        // passed the GP filter
   bool vacuous = false;   // tolerance exceeds 1/200 of feature scale
   int squash = 0;         // x stretched by this factor (negative: y squeezed by it), 0 = isotropic
+  int collinear = 0;      // redundant collinear vertices inserted on edges
   long long crossings = 0;
 };
 
@@ -184,6 +185,22 @@ inline Scene gp_scene(Rng& r, GpCounters& gc, int magexp, int shape = -1, int ma
       else if (magexp >= 20) { // no room to stretch: squeeze y instead (keeps the magnitude)
         for (auto* pp : { &sc.subj, &sc.clip }) for (auto& p : *pp) { for (auto& pt : p) pt.y /= k; strip_dups_closed(p); }
         sc.squash = -(int)k;
+      }
+    }
+    // redundant vertices: an integer point exactly on an edge (always available on horizontal / vertical edges and whenever
+    // gcd(dx,dy) > 1) splits it into two collinear edges; legal in general position (the point lies on its own edges only)
+    sc.collinear = 0;
+    if (r.chance(0.15)) {
+      for (auto* pp : { &sc.subj, &sc.clip }) for (auto& p : *pp) {
+        Path64 q; size_t n = p.size();
+        for (size_t a = 0; a < n; ++a) {
+          const Point64 u = p[a], v = p[(a + 1) % n]; q.push_back(u);
+          int64_t dx = v.x - u.x, dy = v.y - u.y; int64_t g = std::__gcd(dx < 0 ? -dx : dx, dy < 0 ? -dy : dy);
+          if (g >= 2 && r.chance(0.5)) { int nins = r.chance(0.3) && g >= 3 ? 2 : 1; int64_t k1 = r.range(1, g - 1), k2 = r.range(1, g - 1); if (k1 > k2) std::swap(k1, k2);
+            q.push_back(Point64(u.x + dx / g * k1, u.y + dy / g * k1)); ++sc.collinear;
+            if (nins == 2 && k2 != k1) { q.push_back(Point64(u.x + dx / g * k2, u.y + dy / g * k2)); ++sc.collinear; } }
+        }
+        p.swap(q);
       }
     }
     Paths64 all = concat(sc.subj, sc.clip);
